@@ -200,6 +200,72 @@ def rule_f(repo, prop='C06'):
     return findings, n
 
 
+# the state of a tensor train is its core list and the metadata that can be read off the cores; basis-function objects initialise their dimension lazily
+OBJECT_STATE = {'TT': {'order', 'row_dims', 'col_dims', 'ranks', 'cores'}}
+LAZY_OK = {'dimension', 'initialized'}
+
+
+def rule_g(repo, prop='C06', classes=None):
+    """no object keeps DERIVED state: (1) a tensor train has no attribute besides cores / order / row_dims / col_dims / ranks that some code writes and some code
+    reads (`cores` is a public list which the library itself and its callers assign to directly, so no method can keep a cached flag, norm or canonical-form
+    marker current); (2) no method other than __init__ of any other class writes an instance attribute that is read anywhere (evaluation caches keyed on the
+    identity of the last argument, counters), except the lazily initialised `dimension` / `initialized` of the basis functions.
+    Returns (findings, number of classes examined)."""
+    findings, n = [], 0
+    reads = {}
+    for fn in repo.all_functions():
+        for nd in ast.walk(fn.node):
+            if isinstance(nd, ast.Attribute) and isinstance(nd.ctx, ast.Load):
+                reads.setdefault(nd.attr, []).append((fn, nd))
+    # class hierarchy by name: the rule speaks about tensor trains and about the basis-function family (subclasses of transform.Function); other classes of the
+    # repository (the `timer` context manager, record classes of the solvers) are stateful by design
+    bases = {}
+    for mod in repo.modules.values():
+        for st in ast.walk(mod.tree):
+            if isinstance(st, ast.ClassDef):
+                bases[st.name] = [b.id if isinstance(b, ast.Name) else getattr(b, 'attr', None) for b in st.bases]
+
+    def is_function_family(c, depth=0):
+        return c == 'Function' or (depth < 8 and any(is_function_family(b, depth + 1) for b in bases.get(c, []) if b))
+    for mod in repo.modules.values():
+        for cname, cls in getattr(mod, 'classes', {}).items():
+            if classes is not None and cname not in classes:
+                continue
+            if cname not in OBJECT_STATE and not is_function_family(cname):
+                continue
+            n += 1
+            methods = [f for f in repo.all_functions() if f.cls == cname and f.mod == mod.name]
+            for fn in methods:
+                selfname = fn.params[0] if fn.params else 'self'
+                for nd in ast.walk(fn.node):
+                    tgts = []
+                    if isinstance(nd, ast.Assign):
+                        tgts = nd.targets
+                    elif isinstance(nd, (ast.AugAssign, ast.AnnAssign)):
+                        tgts = [nd.target]
+                    for t in tgts:
+                        for x in ([t] if not isinstance(t, (ast.Tuple, ast.List)) else t.elts):
+                            if not (isinstance(x, ast.Attribute) and isinstance(x.value, ast.Name) and x.value.id == selfname):
+                                continue
+                            a = x.attr
+                            if cname in OBJECT_STATE:
+                                if a in OBJECT_STATE[cname]:
+                                    continue
+                            elif fn.name == '__init__' or a in LAZY_OK:
+                                continue
+                            used = [(f2, r) for f2, r in reads.get(a, []) if not (f2 is fn and r is x)]
+                            if not used:
+                                continue          # (a label nobody reads cannot change a result)
+                            f2 = used[0][0]
+                            findings.append(Finding(prop, 'R-g', fn.where, norm_text(nd, 120),
+                                                    f'`{cname}` objects keep derived state in the attribute `{a}` (written here, read in {f2.qual}:{used[0][1].lineno}): '
+                                                    + ('the core list is public and is assigned to directly by the library and its callers, so nothing can keep such a flag or cached '
+                                                       'quantity current; results then depend on the history of the object' if cname in OBJECT_STATE else
+                                                       'a value remembered from an earlier call (keyed on object identity or not at all) is handed out again after the argument changed'),
+                                                    fn.file, nd.lineno))
+    return findings, n
+
+
 def rule_e(repo, an, prop='C06'):
     """elements appended to a list in a loop must not be (may-aliases of) one loop-invariant object that the loop mutates"""
     findings, examined = [], []
@@ -392,6 +458,9 @@ def check(repo, tier):
     run.rule('R-c', 'no tensor train is built around the core list object of another live tensor train')
     run.rule('R-e', 'results appended to a list in a loop are not one loop-invariant object that the loop mutates')
     run.rule('R-f', 'no function writes module-level state (memoisation caches, global counters): distinct calls return distinct live objects and never a value computed for earlier arguments')
+    run.rule('R-g', 'no object keeps derived state: a tensor train has no attribute besides cores / order / row_dims / col_dims / ranks that is written and read (cached flags, norms, '
+             'canonical-form markers cannot be kept current because the core list is public); no method other than __init__ of another class writes an attribute that is read '
+             '(evaluation caches), except the lazily initialised dimension of the basis functions')
     run.trusted = ['NumPy/SciPy aliasing table in ttsa/own.py (which calls return views, which flags destroy which argument)',
                    'Python object model: list slices/concatenations/copies create new lists sharing elements; TT has no __iop__ methods']
     run.assumptions = ['in-place operations are exactly: ortho_left, ortho_right, ortho, truncating construction, methods called with overwrite=True '
@@ -418,6 +487,10 @@ def check(repo, tier):
     for f in f_f:
         run.add(f)
     run.oblige('R-f', ('whole repository', n_f), not f_f)
+    f_g, n_g = rule_g(repo)
+    for f in f_g:
+        run.add(f)
+    run.oblige('R-g', ('all classes', n_g), not f_g)
     f_e, ex = rule_e(repo, an)
     for r in ex:
         run.oblige('R-e', (r['function'], r['append']), r['verdict'] == 'held', nontrivial=True)
